@@ -358,6 +358,7 @@ package decimal128
 //@ requires trunc == -1 ==> sig[1] > 0x0019000000000000
 //@ ensures trunc >= 0 && rs(V, 0) < 0.1 ==> u128(rsig) == 0 && rexp == 0
 //@ ensures RndOK(rm, neg, rs(V, rexp), u128(rsig), rexp) || (u128(rsig) == 0 && rexp == 0 && rs(V, 0) < 0.1)
+//@ ensures exp >= 0 ==> RndOK(rm, neg, rs(V, rexp), u128(rsig), rexp)
 //@ ensures rexp > 12287 ==> 10*u128(rsig) > M
 //@ ensures u128(rsig) <= M && rexp >= 0
 //@ ensures trunc == 0 && u128(sig) <= M && 0 <= exp && exp <= 12287 ==> rsig == sig && rexp == exp
@@ -367,12 +368,12 @@ package decimal128
 //@ loop 1: invariant (exp <= old(exp) + 5 && u128(sig) < 101*B110) || (exp <= old(exp) + 6 && u128(sig) < 11*B110) || (exp <= old(exp) + 7 && u128(sig) <= M)
 //@ loop 1: invariant exp >= old(exp)
 //@ loop 1: decreases u128(sig)
-//@ loop 2: invariant RS(rs(V, exp), u128(sig), trunc, digit) && u128(sig) <= M && -32000 <= exp && exp <= 32007
+//@ loop 2: invariant RS(rs(V, exp), u128(sig), trunc, digit) && u128(sig) <= M && -32000 <= exp && exp <= 32007 && exp >= old(exp)
 //@ loop 2: invariant (digit != 0 || trunc != 0) ==> (u128(sig) >= B110 || exp <= 0)
 //@ loop 2: invariant (old(trunc) >= 0 ==> trunc >= 0) && (exp >= 0 && old(trunc) >= 0 ==> rs(V, exp) >= 0.1)
 //@ loop 2: invariant old(trunc) == 0 && u128(old(sig)) <= M && old(exp) >= 0 ==> digit == 0 && trunc == 0 && sig == old(sig) && exp == old(exp)
 //@ loop 2: decreases 0 - exp
-//@ loop 3: invariant ((RS(rs(V, exp), u128(sig), trunc, digit) && (old(trunc) >= 0 ==> rs(V, exp) >= 0.1)) || (u128(sig) == 0 && digit == 0 && trunc == 0 && exp == 0 && rs(V, 0) < 0.1))
+//@ loop 3: invariant ((RS(rs(V, exp), u128(sig), trunc, digit) && (old(trunc) >= 0 ==> rs(V, exp) >= 0.1)) || (u128(sig) == 0 && digit == 0 && trunc == 0 && exp == 0 && rs(V, 0) < 0.1 && old(exp) < 0))
 //@ loop 3: invariant u128(sig) <= M && 0 <= exp && exp <= 32007
 //@ loop 3: invariant (digit != 0 || trunc != 0) ==> (u128(sig) >= B110 || exp == 0)
 //@ loop 3: invariant old(trunc) == 0 && u128(old(sig)) <= M && old(exp) >= 0 && old(exp) <= 12287 ==> digit == 0 && trunc == 0 && sig == old(sig) && exp == old(exp)
@@ -391,6 +392,7 @@ package decimal128
 //@ requires trunc == 1 ==> u192(sig192) > M
 //@ ensures rs(V, 0) < 0.1 ==> u128(rsig) == 0 && rexp == 0
 //@ ensures RndOK(rm, neg, rs(V, rexp), u128(rsig), rexp) || (u128(rsig) == 0 && rexp == 0 && rs(V, 0) < 0.1)
+//@ ensures exp >= 0 ==> RndOK(rm, neg, rs(V, rexp), u128(rsig), rexp)
 //@ ensures rexp > 12287 ==> 10*u128(rsig) > M
 //@ ensures u128(rsig) <= M && rexp >= 0
 //@ loop 1: invariant TH(rs(V, exp), u192(sig192), trunc) && trunc >= 0 && (trunc == 1 ==> u192(sig192) > M) && exp >= old(exp)
@@ -402,11 +404,11 @@ package decimal128
 //@ loop 2: invariant (exp <= old(exp) + 33 && u128(sig) < 101*B110) || (exp <= old(exp) + 34 && u128(sig) < 11*B110) || (exp <= old(exp) + 35 && u128(sig) <= M)
 //@ loop 2: invariant exp >= old(exp)
 //@ loop 2: decreases u128(sig)
-//@ loop 3: invariant RS(rs(V, exp), u128(sig), trunc, digit) && u128(sig) <= M && -32000 <= exp && exp <= 32035
+//@ loop 3: invariant RS(rs(V, exp), u128(sig), trunc, digit) && u128(sig) <= M && -32000 <= exp && exp <= 32035 && exp >= old(exp)
 //@ loop 3: invariant (digit != 0 || trunc != 0) ==> (u128(sig) >= B110 || exp <= 0)
 //@ loop 3: invariant trunc >= 0 && (exp >= 0 ==> rs(V, exp) >= 0.1)
 //@ loop 3: decreases 0 - exp
-//@ loop 4: invariant ((RS(rs(V, exp), u128(sig), trunc, digit) && rs(V, exp) >= 0.1) || (u128(sig) == 0 && digit == 0 && trunc == 0 && exp == 0 && rs(V, 0) < 0.1))
+//@ loop 4: invariant ((RS(rs(V, exp), u128(sig), trunc, digit) && rs(V, exp) >= 0.1) || (u128(sig) == 0 && digit == 0 && trunc == 0 && exp == 0 && rs(V, 0) < 0.1 && old(exp) < 0))
 //@ loop 4: invariant u128(sig) <= M && 0 <= exp && exp <= 32035
 //@ loop 4: invariant (digit != 0 || trunc != 0) ==> (u128(sig) >= B110 || exp == 0)
 //@ loop 4: decreases exp
@@ -421,6 +423,7 @@ package decimal128
 //@ requires trunc == 1 ==> u256(sig256) > M
 //@ ensures rs(V, 0) < 0.1 ==> u128(rsig) == 0 && rexp == 0
 //@ ensures RndOK(rm, neg, rs(V, rexp), u128(rsig), rexp) || (u128(rsig) == 0 && rexp == 0 && rs(V, 0) < 0.1)
+//@ ensures exp >= 0 ==> RndOK(rm, neg, rs(V, rexp), u128(rsig), rexp)
 //@ ensures rexp > 12287 ==> 10*u128(rsig) > M
 //@ ensures u128(rsig) <= M && rexp >= 0
 //@ loop 1: invariant TH(rs(V, exp), u256(sig256), trunc) && trunc >= 0 && (trunc == 1 ==> u256(sig256) > M) && exp >= old(exp)
@@ -435,11 +438,11 @@ package decimal128
 //@ loop 3: invariant (exp <= old(exp) + 71 && u128(sig) < 101*B110) || (exp <= old(exp) + 72 && u128(sig) < 11*B110) || (exp <= old(exp) + 73 && u128(sig) <= M)
 //@ loop 3: invariant exp >= old(exp)
 //@ loop 3: decreases u128(sig)
-//@ loop 4: invariant RS(rs(V, exp), u128(sig), trunc, digit) && u128(sig) <= M && -32000 <= exp && exp <= 32073
+//@ loop 4: invariant RS(rs(V, exp), u128(sig), trunc, digit) && u128(sig) <= M && -32000 <= exp && exp <= 32073 && exp >= old(exp)
 //@ loop 4: invariant (digit != 0 || trunc != 0) ==> (u128(sig) >= B110 || exp <= 0)
 //@ loop 4: invariant trunc >= 0 && (exp >= 0 ==> rs(V, exp) >= 0.1)
 //@ loop 4: decreases 0 - exp
-//@ loop 5: invariant ((RS(rs(V, exp), u128(sig), trunc, digit) && rs(V, exp) >= 0.1) || (u128(sig) == 0 && digit == 0 && trunc == 0 && exp == 0 && rs(V, 0) < 0.1))
+//@ loop 5: invariant ((RS(rs(V, exp), u128(sig), trunc, digit) && rs(V, exp) >= 0.1) || (u128(sig) == 0 && digit == 0 && trunc == 0 && exp == 0 && rs(V, 0) < 0.1 && old(exp) < 0))
 //@ loop 5: invariant u128(sig) <= M && 0 <= exp && exp <= 32073
 //@ loop 5: invariant (digit != 0 || trunc != 0) ==> (u128(sig) >= B110 || exp == 0)
 //@ loop 5: decreases exp
@@ -453,13 +456,14 @@ package decimal128
 //@ requires rs(V, exp) == sig64
 //@ ensures rs(V, 0) < 0.1 ==> u128(rsig) == 0 && rexp == 0
 //@ ensures RndOK(rm, neg, rs(V, rexp), u128(rsig), rexp) || (u128(rsig) == 0 && rexp == 0 && rs(V, 0) < 0.1)
+//@ ensures exp >= 0 ==> RndOK(rm, neg, rs(V, rexp), u128(rsig), rexp)
 //@ ensures rexp > 12287 ==> 10*u128(rsig) > M
 //@ ensures u128(rsig) <= M && rexp >= 0
-//@ loop 1: invariant RS(rs(V, exp), sig64, trunc, digit) && -32000 <= exp && exp <= 32000
+//@ loop 1: invariant RS(rs(V, exp), sig64, trunc, digit) && -32000 <= exp && exp <= 32000 && exp >= old(exp)
 //@ loop 1: invariant (digit != 0 || trunc != 0) ==> exp <= 0
 //@ loop 1: invariant trunc >= 0 && (exp >= 0 ==> rs(V, exp) >= 0.1)
 //@ loop 1: decreases 0 - exp
-//@ loop 2: invariant ((RS(rs(V, exp), u128(sig), trunc, digit) && rs(V, exp) >= 0.1) || (u128(sig) == 0 && digit == 0 && trunc == 0 && exp == 0 && rs(V, 0) < 0.1))
+//@ loop 2: invariant ((RS(rs(V, exp), u128(sig), trunc, digit) && rs(V, exp) >= 0.1) || (u128(sig) == 0 && digit == 0 && trunc == 0 && exp == 0 && rs(V, 0) < 0.1 && old(exp) < 0))
 //@ loop 2: invariant u128(sig) <= M && 0 <= exp && exp <= 32000
 //@ loop 2: invariant (digit != 0 || trunc != 0) ==> exp == 0
 //@ loop 2: decreases exp
@@ -482,3 +486,97 @@ package decimal128
 //@ ensures !special(d) && !special(o) && coef(d) != 0 && coef(o) != 0 && !special(r) ==>
 //@    (rs(V, 0) < 0.1 && coef(r) == 0) || (rs(V, 0) >= 0.1 && RndOK(mode, sign(r), rs(V, bexp(r)), coef(r), bexp(r)))
 //@ props C02 C15 C19 C20
+
+// ---------------------------------------------------------------------------
+// decimal.go: New, Ldexp, Frexp (C11). DefaultRoundingMode is a free input of
+// every obligation (symbolic value of the package variable).
+// ---------------------------------------------------------------------------
+
+//@ func New
+//@ returns (r)
+//@ logical V real
+//@ requires DefaultRoundingMode <= 5
+//@ requires sig > 0 ==> V > 0 && rs(V, exp + 6176) == sig
+//@ requires sig < 0 ==> V > 0 && rs(V, exp + 6176) == 0 - sig
+//@ ensures sig == 0 ==> !special(r) && coef(r) == 0 && bexp(r) == 0 && !sign(r)
+//@ ensures sig != 0 ==> !isnan(r) && sign(r) == (sig < 0)
+//@ ensures sig != 0 && isinf(r) ==> Ovf(DefaultRoundingMode, sign(r), rs(V, 12287))
+//@ ensures sig != 0 && !special(r) ==> (rs(V, 0) < 0.1 && coef(r) == 0)
+//@    || (rs(V, 0) >= 0.1 && RndOK(DefaultRoundingMode, sign(r), rs(V, bexp(r)), coef(r), bexp(r)))
+//@ waive overflow at "sig *= -1": -MinInt64 wraps to MinInt64, and uint64(MinInt64) = 2^63 is its magnitude
+//@ props C11 C19 C20
+
+//@ func Ldexp
+//@ returns (r)
+//@ logical V real
+//@ requires DefaultRoundingMode <= 5
+//@ requires !special(frac) && coef(frac) != 0 ==> V > 0 && rs(V, bexp(frac) + exp) == coef(frac)
+//@ ensures special(frac) || coef(frac) == 0 ==> r == frac
+//@ ensures !special(frac) && coef(frac) != 0 ==> !isnan(r) && sign(r) == sign(frac)
+//@ ensures !special(frac) && coef(frac) != 0 && isinf(r) ==> Ovf(DefaultRoundingMode, sign(r), rs(V, 12287))
+//@ ensures !special(frac) && coef(frac) != 0 && !special(r) ==> (rs(V, 0) < 0.1 && coef(r) == 0)
+//@    || (rs(V, 0) >= 0.1 && RndOK(DefaultRoundingMode, sign(r), rs(V, bexp(r)), coef(r), bexp(r)))
+//@ props C11 C19 C20
+
+//@ func uint128.log10
+//@ returns (l)
+//@ ensures u128(n) == 0 ==> l == 0
+//@ ensures u128(n) > 0 ==> 0 <= l && l <= 38 && p10(l) <= u128(n) && u128(n) < p10(l + 1)
+//@ props C11 C18 C20
+
+//@ func Frexp
+//@ returns (frac, e)
+//@ ensures special(d) || coef(d) == 0 ==> frac == d && e == 0
+//@ ensures !special(d) && coef(d) != 0 ==> !special(frac) && sign(frac) == sign(d) && coef(frac) == coef(d) && bexp(frac) + e == bexp(d)
+//@ ensures !special(d) && coef(d) != 0 ==> bexp(frac) <= 6175 && p10(6175 - bexp(frac)) <= coef(frac) && coef(frac) < p10(6176 - bexp(frac))
+//@ props C11 C19 C20
+
+// Decimal.add (C01). Vd, Vo: exact magnitudes of d and o (logical). The
+// alignment loops keep one operand exact (rs(V, exp) == sig) and truncate the
+// other toward zero (sig <= rs(V, exp) < sig + 1, sticky in trunc).
+//@ func Decimal.add
+//@ returns (r)
+//@ logical Vd real, Vo real
+//@ requires !special(d) && !special(o) && mode <= 5
+//@ requires Vd >= 0 && Vo >= 0 && rs(Vd, bexp(d)) == coef(d) && rs(Vo, bexp(o)) == coef(o)
+//@ ensures !special(r) || isinf(r)
+//@ ensures coef(d) == 0 && coef(o) == 0 ==> !special(r) && coef(r) == 0 && (sign(r) == (sign(d) && (sign(o) != subtract)))
+//@ ensures coef(d) == 0 && coef(o) != 0 ==> !special(r) && coef(r) == coef(o) && bexp(r) == bexp(o) && sign(r) == (sign(o) != subtract)
+//@ ensures coef(d) != 0 && coef(o) == 0 ==> r == d
+//@ ensures coef(d) != 0 && coef(o) != 0 && sign(d) == (sign(o) != subtract) ==> sign(r) == sign(d)
+//@    && (isinf(r) ==> Ovf(mode, sign(r), rs(Vd, 12287) + rs(Vo, 12287)))
+//@    && (!special(r) ==> RndOK(mode, sign(r), rs(Vd, bexp(r)) + rs(Vo, bexp(r)), coef(r), bexp(r)))
+//@ ensures coef(d) != 0 && coef(o) != 0 && sign(d) != (sign(o) != subtract) && Vd == Vo ==> !special(r) && coef(r) == 0 && sign(r) == (mode == 4)
+//@ ensures coef(d) != 0 && coef(o) != 0 && sign(d) != (sign(o) != subtract) && Vd > Vo ==> sign(r) == sign(d)
+//@    && (isinf(r) ==> Ovf(mode, sign(r), rs(Vd, 12287) - rs(Vo, 12287)))
+//@    && (!special(r) ==> RndOK(mode, sign(r), rs(Vd, bexp(r)) - rs(Vo, bexp(r)), coef(r), bexp(r)))
+//@ ensures coef(d) != 0 && coef(o) != 0 && sign(d) != (sign(o) != subtract) && Vd < Vo ==> sign(r) == !sign(d)
+//@    && (isinf(r) ==> Ovf(mode, sign(r), rs(Vo, 12287) - rs(Vd, 12287)))
+//@    && (!special(r) ==> RndOK(mode, sign(r), rs(Vo, bexp(r)) - rs(Vd, bexp(r)), coef(r), bexp(r)))
+//@ loop 1: invariant rs(Vo, oExp) == u128(oSig) && exp == dExp - oExp && exp <= 0 && oExp >= 0 && u128(oSig) != 0
+//@ loop 1: decreases 0 - exp
+//@ loop 2: invariant rs(Vo, oExp) == u128(oSig) && exp == dExp - oExp && exp <= 0 && oExp >= 0 && u128(oSig) != 0
+//@ loop 2: decreases 0 - exp
+//@ loop 3: invariant rs(Vo, oExp) == u128(oSig) && exp == dExp - oExp && exp <= 0 && oExp >= 0 && dExp >= 0 && u128(oSig) != 0
+//@ loop 3: invariant 0 <= trunc && trunc <= 1 && u128(dSig) <= rs(Vd, dExp) && rs(Vd, dExp) < u128(dSig) + 1 && (trunc == 0 ==> rs(Vd, dExp) == u128(dSig)) && (trunc != 0 ==> rs(Vd, dExp) > u128(dSig))
+//@ loop 3: invariant (trunc != 0 || exp < 0) ==> oSig[1] > 0x18ffffffffffffff
+//@ loop 3: invariant u128(dSig) <= M
+//@ loop 3: decreases 0 - exp
+//@ loop 4: invariant rs(Vd, dExp) == u128(dSig) && exp == dExp - oExp && exp >= 0 && dExp >= 0 && u128(dSig) != 0
+//@ loop 4: decreases exp
+//@ loop 5: invariant rs(Vd, dExp) == u128(dSig) && exp == dExp - oExp && exp >= 0 && dExp >= 0 && u128(dSig) != 0
+//@ loop 5: decreases exp
+//@ loop 6: invariant rs(Vd, dExp) == u128(dSig) && exp >= 0 && dExp >= 0 && u128(dSig) != 0
+//@ loop 6: invariant 0 - 1 <= trunc && trunc <= 0 && u128(oSig) <= rs(Vo, dExp - exp) && rs(Vo, dExp - exp) < u128(oSig) + 1 && (trunc == 0 ==> rs(Vo, dExp - exp) == u128(oSig)) && (trunc != 0 ==> rs(Vo, dExp - exp) > u128(oSig))
+//@ loop 6: invariant (trunc != 0 || exp > 0) ==> dSig[1] > 0x18ffffffffffffff
+//@ loop 6: invariant u128(oSig) <= M
+//@ loop 6: decreases exp
+//@ waive cover at "return zero(mode == ToNegativeInf)": the same-sign sum of two nonzero coefficients is never zero (dead code); the difference-path return on the same text is covered by ensures 6
+//@ cut before "dNeg := d.Signbit()": havoc dSig, dExp, oSig, oExp, exp, trunc:
+//@    coef(d) != 0 && coef(o) != 0 && 0 <= dExp && dExp <= 12287 && 0 - 1 <= trunc && trunc <= 1
+//@    && (trunc == 0 ==> rs(Vd, dExp) == u128(dSig) && rs(Vo, dExp) == u128(oSig))
+//@    && (trunc == 1 ==> rs(Vo, dExp) == u128(oSig) && u128(dSig) < rs(Vd, dExp) && rs(Vd, dExp) < u128(dSig) + 1 && oSig[1] > 0x18ffffffffffffff && u128(dSig) <= M)
+//@    && (trunc == 0 - 1 ==> rs(Vd, dExp) == u128(dSig) && u128(oSig) < rs(Vo, dExp) && rs(Vo, dExp) < u128(oSig) + 1 && dSig[1] > 0x18ffffffffffffff && u128(oSig) <= M)
+//@ call RoundingMode.reduce192: V = Vd + Vo
+//@ call RoundingMode.reduce128: V = ite(Vd >= Vo, Vd - Vo, Vo - Vd)
+//@ props C01 C19 C20
